@@ -184,6 +184,8 @@ func funcAtoms(fn *ssa.Function) map[string]int {
 					out.add("write field:"+fr.Owner+"."+fr.Name+" = "+operandKind(x.Val))
 				} else if g, ok := x.Addr.(*ssa.Global); ok {
 					out.add("write global:"+g.Name()+" = "+operandKind(x.Val))
+				} else if _, ok := x.Addr.(*ssa.FreeVar); ok {
+					out.add("write captured = "+operandKind(x.Val))
 				}
 			case *ssa.FieldAddr:
 			case ssa.CallInstruction:
@@ -215,7 +217,7 @@ func funcAtoms(fn *ssa.Function) map[string]int {
 				if strings.HasPrefix(n, "closure:") {
 					n = "closure"
 				}
-				if strings.HasPrefix(n, "log.") {
+				if strings.HasPrefix(n, "log.") && (f.Pkg == nil || short(f.Pkg.Pkg.Path()) != "log") {
 					return // logging is not part of the compared behaviour
 				}
 				out.add(kind+n+"("+strings.Join(cargs, ",")+")")
@@ -400,10 +402,35 @@ func init() {
 	}
 }
 
+var (
+	sibGetters []siblingPair
+	sibLog     []siblingPair
+)
+
+func init() {
+	types := []struct{ name, opt, field string }{{"String", "OptTypeString", "stringVal"}, {"StringArray", "OptTypeStringArray", "stringArrayVal"}, {"Int", "OptTypeInt", "intVal"}, {"Bool", "OptTypeBool", "boolVal"}}
+	for i := 1; i < len(types); i++ {
+		a, b := types[0], types[i]
+		for _, recv := range []string{"config.", "config.(*safe)."} {
+			sibGetters = append(sibGetters, siblingPair{A: recv + "GetAs" + a.name, B: recv + "GetAs" + b.name,
+				Rename: map[string]string{a.field: b.field, "const:1)": fmt.Sprintf("const:%d)", i+1)}, Why: "getters of the option types (they differ in the option-type constant and the value field)"})
+		}
+	}
+	levels := []string{"Trace", "Debug", "Info", "Warning", "Error", "Critical"}
+	for i := 1; i < len(levels); i++ {
+		for _, f := range []string{"", "f"} {
+			ren := map[string]string{"(const:1": fmt.Sprintf("(const:%d", i+1)}
+			sibLog = append(sibLog, siblingPair{A: "log." + levels[0] + f, B: "log." + levels[i] + f, Rename: ren, Why: "log wrappers of the severities (they differ in the level constant; warning and above also count the line)",
+				Allow: []string{"call sync/atomic.AddUint64(global:", "read global:"}})
+			sibLog = append(sibLog, siblingPair{A: "log.(*ContextTracer)." + levels[0] + f, B: "log.(*ContextTracer)." + levels[i] + f, Rename: ren, Why: "tracer wrappers of the severities"})
+		}
+	}
+}
+
 var allSiblingPairs []siblingPair
 
 func probeSiblings(c *Ctx) {
-	for _, ps := range [][]siblingPair{sibConfig, sibMicro, sibDatabase, sibAccessor, sibSetters, sibDSD, sibAuth, sibQuery, sibRecord} {
+	for _, ps := range [][]siblingPair{sibConfig, sibMicro, sibDatabase, sibAccessor, sibSetters, sibDSD, sibAuth, sibQuery, sibRecord, sibGetters, sibLog} {
 		allSiblingPairs = append(allSiblingPairs, ps...)
 	}
 	for _, p := range allSiblingPairs {
